@@ -181,7 +181,9 @@ Record vr := mkVr { vrep : bool; vrfc : bool;
                      vsf : bool   (* a dataplane failure report for a session that has already been through terminate() is
                                      ignored (7b3d79c); false = the code before it *);
                      vnm : bool   (* the local DHCPv6 provider keeps the pool name of a lease it re-reserves for the same
-                                     session and address (fixes/C03_dhcp6_rereserve_keeps_pool_name.patch); false = /repo HEAD *) }.
+                                     session and address (277708f); false = the code before it *) }.
+(* the code before 277708f, everything else fixed: only in historical [_refuted] examples *)
+Definition pre_277708f (rfc : bool) : vr := mkVr true rfc true true true false.
 Definition mkV5 (rep rfc td hl sf : bool) : vr := mkVr rep rfc td hl sf true.
 (* the code before 7b3d79c, everything else fixed: only in historical [_refuted] examples *)
 Definition pre_7b3d79c (rfc : bool) : vr := mkV5 true rfc true true false.
